@@ -114,10 +114,25 @@ inductive Val
   | prop (succ trials : List Entry) (constant : Option Rat)   -- Proportion
   deriving Repr
 
-/-- what a stateful transform instance remembers, per call node (path in the call tree) -/
-structure TState where
-  centerMeans : List (List Nat × Rat) := []
-  deriving Repr, DecidableEq
+/-- What the stateful transform instances of a call tree remember.  The state is a tree of the
+same shape as the lazy call tree: in Python every `LazyCall` node owns its transform instance
+(`self.stateful_transform`), created on the first evaluation and reused afterwards.  `own` is the
+fitted parameter of the node's own transform (the mean of `center`), `children` the states of the
+argument nodes in evaluation order. -/
+inductive TS
+  | leaf
+  | node (own : Option Rat) (children : List TS)
+  deriving Repr
+
+def TS.child (ts : Option TS) (i : Nat) : Option TS :=
+  match ts with
+  | some (.node _ cs) => cs[i]?
+  | _ => Option.none
+
+def TS.own (ts : Option TS) : Option Rat :=
+  match ts with
+  | some (.node o _) => o
+  | _ => Option.none
 
 structure Env where
   frame : Frame
@@ -228,51 +243,49 @@ def CallArgs.get (a : CallArgs) (i : Nat) (name : String) : Val :=
   | some v => v
   | Option.none => ((a.kw.find? (·.1 == name)).map (·.2)).getD Val.pyNone
 
-/-- the built-in functions this model covers (transforms.py); the stateful `center` threads the
-transform state of its call node (`path`) -/
-def applyCallee (callee : String) (a : CallArgs) (training : Bool) (path : List Nat) (st : TState) :
-    M (Val × TState) :=
+/-- the built-in functions this model covers (transforms.py).  `own` is the state of this call
+node's transform instance: `none` on the first evaluation (`params_set = False`: the parameters
+are estimated and remembered), `some m` afterwards (they are reused). Returns the value and the
+state after the call. -/
+def applyCallee (callee : String) (a : CallArgs) (own : Option Rat) : M (Val × Option Rat) :=
   match callee with
   | "I" => match a.pos with
-    | [v] => pure (v, st)
+    | [v] => pure (v, own)
     | _ => .error .typeError
   | "center" =>
     match a.pos with
     | [.vec xs _] =>
-      if training then
+      match own with
+      | Option.none =>
         match mean xs with
-        | some m => pure (.vec (xs.map (fun x => x.map (· - m))) false,
-                         { st with centerMeans := st.centerMeans ++ [(path, m)] })
+        | some m => pure (.vec (xs.map (fun x => x.map (· - m))) false, some m)
         | Option.none => .error (.unmodelled "mean of data with NaN")
-      else
-        match st.centerMeans.find? (·.1 == path) with
-        | some p => pure (.vec (xs.map (fun x => x.map (· - p.2))) false, st)
-        | Option.none => .error (.unmodelled "transform state missing")
+      | some m => pure (.vec (xs.map (fun x => x.map (· - m))) false, some m)
     | _ => .error (.unmodelled "center of a non-vector")
-  | "Treatment" => pure (.contrast (.treatment (levelOfVal (a.get 0 "reference"))), st)
-  | "Sum" => pure (.contrast (.sum (levelOfVal (a.get 0 "omit"))), st)
+  | "Treatment" => pure (.contrast (.treatment (levelOfVal (a.get 0 "reference"))), own)
+  | "Sum" => pure (.contrast (.sum (levelOfVal (a.get 0 "omit"))), own)
   | "C" => do
     let contrast ← contrastOfVal (a.get 1 "contrast")
     let levels ← levelsOfVal (a.get 2 "levels")
     match a.get 0 "data" with
     | .box b =>
       let b' ← mkBox b.data Option.none (contrast <|> b.contrast) (levels <|> b.levels)
-      pure (.box b', st)
+      pure (.box b', own)
     | d => do
       let (xs, decl) ← dataLevels d
-      pure (.box (← mkBox xs decl contrast levels), st)
+      pure (.box (← mkBox xs decl contrast levels), own)
   | "T" => do
     let levels ← levelsOfVal (a.get 2 "levels")
     let (xs, decl) ← dataLevels (a.get 0 "data")
-    pure (.box (← mkBox xs decl (some (.treatment (levelOfVal (a.get 1 "ref")))) levels), st)
+    pure (.box (← mkBox xs decl (some (.treatment (levelOfVal (a.get 1 "ref")))) levels), own)
   | "S" => do
     let levels ← levelsOfVal (a.get 2 "levels")
     let (xs, decl) ← dataLevels (a.get 0 "data")
-    pure (.box (← mkBox xs decl (some (.sum (levelOfVal (a.get 1 "omit")))) levels), st)
+    pure (.box (← mkBox xs decl (some (.sum (levelOfVal (a.get 1 "omit")))) levels), own)
   | "offset" =>
     match a.pos with
-    | [.vec xs _] => pure (.offsetVar xs, st)
-    | [.num q _] => pure (.offsetConst q, st)
+    | [.vec xs _] => pure (.offsetVar xs, own)
+    | [.num q _] => pure (.offsetConst q, own)
     | _ => .error (.valueError "offset")
   | _ => .error (.unmodelled ("callee " ++ callee))
 
@@ -322,53 +335,54 @@ def proportionFn (succ trials : Val) : M Val := do
   | _ => .error (.valueError "'successes' must be a variable name.")
 
 /-- `LazyCall.eval` once the arguments are evaluated -/
-def finishCall (callee : String) (args : CallArgs) (training : Bool) (p : List Nat) (st : TState) :
-    M (Val × TState) :=
+def finishCall (callee : String) (args : CallArgs) (own : Option Rat) : M (Val × Option Rat) :=
   match callee with
-  | "binary" | "B" => do pure (← binaryFn (args.get 0 "x") (args.get 1 "success"), st)
+  | "binary" | "B" => do pure (← binaryFn (args.get 0 "x") (args.get 1 "success"), own)
   | "p" | "prop" | "proportion" => do
-    pure (← proportionFn (args.get 0 "successes") (args.get 1 "trials"), st)
-  | _ => applyCallee callee args training p st
+    pure (← proportionFn (args.get 0 "successes") (args.get 1 "trials"), own)
+  | _ => applyCallee callee args own
 
-abbrev ArgR := Option String × Val × TState     -- (keyword if the node is an Assign, value, state)
+abbrev ArgR := Option String × Val × TS     -- (keyword if the node is an Assign, value, state after)
 
-def posOnly (r : M ArgR) : M (Val × TState) := do
+def posOnly (r : M ArgR) : M (Val × TS) := do
   match (← r) with
   | (Option.none, v, st) => pure (v, st)
   | (some _, _, _) => .error .typeError
 
 mutual
-/-- `Lazy*.eval` on an argument expression; `path` identifies the call node for transform state.
+/-- `Lazy*.eval` on an argument expression.  `ts` is the state of this node's subtree:
+`none` on the first evaluation (training), the remembered tree afterwards (prediction).
 An `Assign` node is reported with its keyword (only a call's argument list accepts it). -/
-def evalArg (env : Env) (training : Bool) : Expr → List Nat → TState → M ArgR
-  | .grouping _ e _, p, st => do
-    let (v, st) ← posOnly (evalArg env training e p st)
+def evalArg (env : Env) : Expr → Option TS → M ArgR
+  | .grouping _ e _, ts => do
+    let (v, st) ← posOnly (evalArg env e ts)
     pure (Option.none, v, st)
-  | .variable n, _, st => do pure (Option.none, ← lookupName env n.lexeme, st)
-  | .subset n _ _ _, _, st => do pure (Option.none, ← lookupName env n.lexeme, st)
-  | .quoted t, _, st => do
-    pure (Option.none, ← lookupName env (String.ofList ((t.lexeme.toList.drop 1).dropLast)), st)
-  | .literal t, _, st =>
+  | .variable n, _ => do pure (Option.none, ← lookupName env n.lexeme, .leaf)
+  | .subset n _ _ _, _ => do pure (Option.none, ← lookupName env n.lexeme, .leaf)
+  | .quoted t, _ => do
+    pure (Option.none, ← lookupName env (String.ofList ((t.lexeme.toList.drop 1).dropLast)), .leaf)
+  | .literal t, _ =>
     match t.kind with
     | .NUMBER =>
       match intLexeme t.lexeme with
-      | some n => pure (Option.none, .num n true, st)
+      | some n => pure (Option.none, .num n true, .leaf)
       | Option.none => match decLexeme t.lexeme with
-        | some q => pure (Option.none, .num q false, st)
+        | some q => pure (Option.none, .num q false, .leaf)
         | Option.none => .error (.unmodelled "number")
-    | .STRING => pure (Option.none, .str (String.ofList ((t.lexeme.toList.drop 1).dropLast)), st)
+    | .STRING => pure (Option.none, .str (String.ofList ((t.lexeme.toList.drop 1).dropLast)), .leaf)
     | _ =>
-      if t.lexeme == "True" then pure (Option.none, .bool true, st)
-      else if t.lexeme == "False" then pure (Option.none, .bool false, st)
-      else pure (Option.none, .pyNone, st)
-  | .unary op r, p, st => do
-    let (v, st) ← posOnly (evalArg env training r (0 :: p) st)
+      if t.lexeme == "True" then pure (Option.none, .bool true, .leaf)
+      else if t.lexeme == "False" then pure (Option.none, .bool false, .leaf)
+      else pure (Option.none, .pyNone, .leaf)
+  | .unary op r, ts => do
+    let (v, st) ← posOnly (evalArg env r (TS.child ts 0))
     if op.kind == .MINUS then do
-      pure (Option.none, ← vecOp (fun a b => some (a * b)) (.num (-1) true) v, st)
-    else pure (Option.none, v, st)
-  | .binary l op r, p, st => do
-    let (a, st) ← posOnly (evalArg env training l (0 :: p) st)
-    let (b, st) ← posOnly (evalArg env training r (1 :: p) st)
+      pure (Option.none, ← vecOp (fun a b => some (a * b)) (.num (-1) true) v, .node Option.none [st])
+    else pure (Option.none, v, .node Option.none [st])
+  | .binary l op r, ts => do
+    let (a, sa) ← posOnly (evalArg env l (TS.child ts 0))
+    let (b, sb) ← posOnly (evalArg env r (TS.child ts 1))
+    let st := TS.node Option.none [sa, sb]
     match op.kind with
     | .PLUS => do pure (Option.none, ← vecOp (fun x y => some (x + y)) a b, st)
     | .MINUS => do pure (Option.none, ← vecOp (fun x y => some (x - y)) a b, st)
@@ -379,33 +393,37 @@ def evalArg (env : Env) (training : Bool) : Expr → List Nat → TState → M A
           pure (Option.none, ← vecOp (fun x y => some (x / y)) a (.num q false), st)
       | _ => .error (.unmodelled "division by a vector")
     | _ => .error (.unmodelled "operator")
-  | .call c _ as _, p, st =>
+  | .call c _ as _, ts =>
     match c with
     | .variable n => do
-      let (args, st) ← evalArgs env training as 0 p st ⟨[], []⟩
-      let (v, st) ← finishCall n.lexeme args training p st
-      pure (Option.none, v, st)
+      let (args, sts) ← evalArgs env as ts 0 ⟨[], []⟩
+      let (v, own) ← finishCall n.lexeme args (TS.own ts)
+      pure (Option.none, v, .node own sts)
     | _ => .error (.unmodelled "callee expression")
-  | .brace _ e _, p, st => do
-    let (v, st) ← posOnly (evalArg env training e (0 :: p) st)
-    pure (Option.none, v, st)
-  | .assign n _ v, p, st => do
-    let (x, st) ← posOnly (evalArg env training v p st)
+  | .brace _ e _, ts => do
+    let (v, st) ← posOnly (evalArg env e (TS.child ts 0))
+    pure (Option.none, v, .node Option.none [st])
+  | .assign n _ v, ts => do
+    let (x, st) ← posOnly (evalArg env v ts)
     match n with
     | .variable t => pure (some t.lexeme, x, st)
     | _ => .error .typeError
-/-- arguments left to right: positional list and keyword list -/
-def evalArgs (env : Env) (training : Bool) : Args → Nat → List Nat → TState → CallArgs →
-    M (CallArgs × TState)
-  | .nil, _, _, st, acc => pure (acc, st)
-  | .last e, i, p, st, acc => do
-    match (← evalArg env training e (i :: p) st) with
-    | (some k, x, st) => pure (⟨acc.pos, acc.kw ++ [(k, x)]⟩, st)
-    | (Option.none, x, st) => pure (⟨acc.pos ++ [x], acc.kw⟩, st)
-  | .more e _ rest, i, p, st, acc => do
-    match (← evalArg env training e (i :: p) st) with
-    | (some k, x, st) => evalArgs env training rest (i + 1) p st ⟨acc.pos, acc.kw ++ [(k, x)]⟩
-    | (Option.none, x, st) => evalArgs env training rest (i + 1) p st ⟨acc.pos ++ [x], acc.kw⟩
+/-- arguments left to right: positional list and keyword list; the `i`-th argument uses the
+`i`-th child state of the call node -/
+def evalArgs (env : Env) : Args → Option TS → Nat → CallArgs → M (CallArgs × List TS)
+  | .nil, _, _, acc => pure (acc, [])
+  | .last e, ts, i, acc => do
+    match (← evalArg env e (TS.child ts i)) with
+    | (some k, x, st) => pure (⟨acc.pos, acc.kw ++ [(k, x)]⟩, [st])
+    | (Option.none, x, st) => pure (⟨acc.pos ++ [x], acc.kw⟩, [st])
+  | .more e _ rest, ts, i, acc => do
+    match (← evalArg env e (TS.child ts i)) with
+    | (some k, x, st) => do
+      let (a, sts) ← evalArgs env rest ts (i + 1) ⟨acc.pos, acc.kw ++ [(k, x)]⟩
+      pure (a, st :: sts)
+    | (Option.none, x, st) => do
+      let (a, sts) ← evalArgs env rest ts (i + 1) ⟨acc.pos ++ [x], acc.kw⟩
+      pure (a, st :: sts)
 end
 
 end FormulaeModel.Design
